@@ -868,4 +868,21 @@ func connFacts(p *pkg, f *facts) {
 		}
 	}
 	f.boolean("closeReleasesAndClears", okc, true, "")
+	// order of the teardown: Close stops the server (which waits for the connections) before it releases handles and
+	// clears caches; Stop cancels the server context before it closes listeners and connections, so that a connection
+	// accepted meanwhile finds the context cancelled
+	if fn, ok := p.funcs["AbsfsNFS.Close"]; ok {
+		src := squeeze(exprString(p.fset, fn.Body))
+		st, wp, rel, ac := strings.Index(src, "exportServer.Stop()"), strings.Index(src, "workerPool.Stop()"), strings.Index(src, "fileMap.ReleaseAll()"), strings.Index(src, "attrCache.Clear()")
+		f.boolean("closeStopsBeforeRelease", st >= 0 && wp > st && rel > wp && ac > rel, true, "")
+	} else {
+		f.boolean("closeStopsBeforeRelease", false, false, "func AbsfsNFS.Close not found")
+	}
+	if fn, ok := p.funcs["Server.Stop"]; ok && fn.Body != nil && len(fn.Body.List) > 0 {
+		first := squeeze(exprString(p.fset, fn.Body.List[0]))
+		src := squeeze(exprString(p.fset, fn.Body))
+		f.boolean("stopCancelsFirst", first == "s.cancel()" && strings.Count(src, "s.cancel()") == 1 && strings.Contains(src, "s.closeAllConnections()") && strings.Contains(src, "s.wg.Wait()"), true, "")
+	} else {
+		f.boolean("stopCancelsFirst", false, false, "func Server.Stop not found")
+	}
 }
